@@ -1,1 +1,310 @@
-/-! # C06 — property theorems (stub: not built yet) -/
+import KM.Lemmas.Auth
+import KM.Gen.Routes
+import KM.Model.Routes
+/-! # C06 — no protected effect without a valid credential the endpoint accepts
+
+`checkAuth` is `KM.Auth.checkAuth` (repaired code); `Established` says the identity and
+every factor bit of the returned `authInfo` are backed by a credential in the request. -/
+namespace KM.Auth
+open KM.Gen KM.Site
+
+theorem tlsFinish_ret {m : Nat} {acc : TlsAcc} {info : AuthInfo}
+    (h : tlsFinish fixed m acc = .ret info) :
+    acc.user ≠ "" ∧ hasBit acc.authType m = true ∧ info.user = acc.user ∧
+      info.authType = acc.authType ∧ info.issuedAt = acc.issuedAt := by
+  unfold tlsFinish at h
+  split at h
+  · rename_i hc
+    injection h with h
+    subst h
+    simp only [fixed, Bool.not_true, Bool.false_or, Bool.and_eq_true, bne_iff_ne, ne_eq] at hc
+    exact ⟨hc.1, hc.2, rfl, rfl, rfl⟩
+  · cases h
+
+theorem tlsStart_user {cfg : Cfg} {chains : List Chain}
+    (h : (tlsStart fixed cfg chains).user ≠ "") :
+    (tlsStart fixed cfg chains).authType = authTypeKeymasterX509 ∧
+    ∃ leaf signer rest, (leaf :: signer :: rest) ∈ chains ∧ leaf.cn = (tlsStart fixed cfg chains).user ∧
+      leaf.ipRestricted = false ∧ cfg.deniedKeys.contains leaf.keyId = false ∧
+      cfg.keymasterKeys.contains signer.keyId = true := by
+  unfold tlsStart at h ⊢
+  split at h
+  · rename_i u nb hk
+    split at h
+    · rename_i hu
+      simp only [hu, if_true]
+      obtain ⟨leaf, signer, rest, hm, h1, _, h3, h4, h5⟩ := keymasterSigned_user hk
+      exact ⟨by first | rfl | trivial, leaf, signer, rest, hm, h1, h3, h4, h5⟩
+    · exact absurd rfl h
+  · exact absurd rfl h
+
+/-- the certificate branch only ever returns identities that a certificate in the request backs,
+and only of a kind the caller asked for -/
+theorem tlsBranch_sound {cfg : Cfg} {req : Req} {m : Nat} {info : AuthInfo}
+    (h : tlsBranch fixed cfg req m = .ret info) :
+    hasBit info.authType m = true ∧
+    ((info.authType = authTypeKeymasterX509 ∧ kmCertValid cfg req info.user) ∨
+     (info.authType = authTypeIPCertificate ∧ ipCertValid cfg req info.user) ∨
+     (info.authType = authTypeKeymasterX509 ||| authTypeIPCertificate ∧
+        ipCertValid cfg req info.user ∧ ∃ u', u' ≠ "" ∧ kmCertValid cfg req u')) := by
+  unfold tlsBranch at h
+  split at h
+  · cases h
+  · rename_i hg
+    have htls : req.tls = true := by
+      simp only [Bool.not_eq_true', Bool.and_eq_false_iff, not_or] at hg
+      simpa using hg.2
+    split at h
+    · cases h
+    · -- shared: finishing with the keymaster-signed accumulator
+      have kmCase : ∀ {info}, tlsFinish fixed m (tlsStart fixed cfg req.chains) = .ret info →
+          hasBit info.authType m = true ∧ info.authType = authTypeKeymasterX509 ∧
+            kmCertValid cfg req info.user := by
+        intro info hf
+        obtain ⟨hu, hb, e1, e2, _⟩ := tlsFinish_ret hf
+        obtain ⟨ht, leaf, signer, rest, hm, h1, h3, h4, h5⟩ := tlsStart_user hu
+        refine ⟨by rw [e2]; exact hb, by rw [e2, ht], htls, leaf, signer, rest, hm, ?_, h3, h4, h5⟩
+        rw [e1]; exact h1
+      split at h
+      · obtain ⟨a, b, c⟩ := kmCase h
+        exact ⟨a, Or.inl ⟨b, c⟩⟩
+      · split at h
+        · cases h
+        · split at h
+          · cases h
+          · obtain ⟨a, b, c⟩ := kmCase h
+            exact ⟨a, Or.inl ⟨b, c⟩⟩
+        · split at h
+          · cases h
+          · obtain ⟨a, b, c⟩ := kmCase h
+            exact ⟨a, Or.inl ⟨b, c⟩⟩
+        · rename_i u hip
+          obtain ⟨hu, hb, e1, e2, _⟩ := tlsFinish_ret h
+          simp only at e1 e2 hb hu
+          obtain ⟨leaf, rest, more, hc, h1, h2, h3, h4, h5⟩ := ipRestricted_user hip
+          have hipv : ipCertValid cfg req info.user := by
+            rw [e1]
+            exact ⟨htls, leaf, rest, more, hc, h1, h2, h3, h4, h5⟩
+          refine ⟨by rw [e2]; exact hb, ?_⟩
+          by_cases hs : (tlsStart fixed cfg req.chains).user = ""
+          · right; left
+            refine ⟨?_, hipv⟩
+            rw [e2]
+            have : (tlsStart fixed cfg req.chains).authType = 0 := by
+              unfold tlsStart at hs ⊢
+              split
+              · rename_i u' nb hk
+                split
+                · rename_i hne
+                  rw [hk] at hs
+                  simp only [hne, if_true] at hs
+                  exact absurd hs (by simpa using hne)
+                · rfl
+              · rfl
+            rw [this]; simp
+          · right; right
+            obtain ⟨ht, leaf', signer, rest', hm, h1', h3', h4', h5'⟩ := tlsStart_user hs
+            refine ⟨by rw [e2, ht], hipv, (tlsStart fixed cfg req.chains).user, hs, htls, leaf', signer,
+              rest', hm, h1', h3', h4', h5'⟩
+
+theorem cookieBranch_sound {req : Req} {m : Nat} {info : AuthInfo}
+    (h : cookieBranch req m = .ok info) :
+    hasBit info.authType m = true ∧
+    (cookieValid req info ∨ (basicValid req info.user ∧ info.authType = authTypePassword)) := by
+  unfold cookieBranch at h
+  split at h
+  · rename_i hc
+    split at h
+    · cases h
+    · rename_i hp
+      split at h
+      · cases h
+      · rename_i b hb
+        split at h
+        · cases h
+        · rename_i hl
+          split at h
+          · cases h
+          · cases h
+          · rename_i hr
+            injection h with h
+            subst h
+            refine ⟨?_, Or.inr ⟨⟨hc, by simpa using hl, b, hb, rfl, hr⟩, rfl⟩⟩
+            simpa using hp
+  · rename_i t hc
+    split at h
+    · cases h
+    · rename_i i hj
+      split at h
+      · cases h
+      · rename_i he
+        split at h
+        · cases h
+        · rename_i hm
+          injection h with h
+          subst h
+          refine ⟨by simpa using hm, Or.inl ⟨t, hc, ?_⟩⟩
+          unfold jwtInfo at hj
+          split at hj
+          · rename_i hv
+            injection hj with hj
+            subst hj
+            simp only [Bool.and_eq_true, beq_iff_eq, decide_eq_true_eq] at hv
+            simp only [decide_eq_true_eq, Int.not_lt] at he
+            exact ⟨hv.1.1.1.1, hv.1.1.1.2, hv.1.1.2, hv.1.2, hv.2, he, rfl, rfl, rfl⟩
+          · cases hj
+
+/-- **Admission is sound**: whenever `checkAuth` admits a request, the identity and level it is
+admitted with were really established by the credential presented, and the level intersects
+the mask the endpoint asked for. Holds for every configuration, request shape and mask. -/
+theorem c06_checkAuth_sound (cfg : Cfg) (req : Req) (m : Nat) (info : AuthInfo)
+    (h : checkAuth cfg req m = .ok info) :
+    Established cfg req info ∧ hasBit info.authType m = true := by
+  unfold checkAuth checkAuthWith at h
+  split at h
+  · split at h <;> cases h
+  · split at h
+    · cases h
+    · split at h
+      · rename_i i ht
+        injection h with h
+        subst h
+        obtain ⟨hb, hc⟩ := tlsBranch_sound ht
+        refine ⟨?_, hb⟩
+        rcases hc with hc | hc | hc
+        · exact Or.inr (Or.inr (Or.inl hc))
+        · exact Or.inr (Or.inr (Or.inr (Or.inl hc)))
+        · exact Or.inr (Or.inr (Or.inr (Or.inr hc)))
+      · cases h
+      · obtain ⟨hb, hc⟩ := cookieBranch_sound h
+        refine ⟨?_, hb⟩
+        rcases hc with hc | hc
+        · exact Or.inl hc
+        · exact Or.inr (Or.inl hc)
+
+/-- **Cross-site requests**: a state-changing request whose Origin/Referer names another host
+is never admitted, whatever credential it carries. -/
+theorem c06_csrf (cfg : Cfg) (req : Req) (m : Nat)
+    (hm : req.method ≠ .get) (ho : req.origin = .otherHost) (hh : req.hostPresent = true) :
+    checkAuth cfg req m = .fail 401 := by
+  unfold checkAuth checkAuthWith
+  have : req.isGet = false := by
+    unfold Req.isGet; cases hmm : req.method <;> simp_all
+  simp [this, ho, hh]
+
+/-- **Outside the netblocks**: when every verified chain carries the same IP-restricted leaf
+(chains of one TLS handshake share their leaf) and the peer address is outside its netblocks,
+the certificate admits nothing, on any endpoint. -/
+theorem c06_ip_outside (cfg : Cfg) (req : Req) (m : Nat) (info : AuthInfo)
+    (hleaf : ∀ c ∈ req.chains, ∀ leaf rest, c = leaf :: rest →
+      leaf.ipRestricted = true ∧ leaf.ipVerdict ≠ .inside)
+    (h : checkAuth cfg req m = .ok info) :
+    cookieValid req info ∨ (basicValid req info.user ∧ info.authType = authTypePassword) := by
+  have hs := (c06_checkAuth_sound cfg req m info h).1
+  rcases hs with hs | hs | ⟨_, hs⟩ | ⟨_, hs⟩ | ⟨_, hs, _⟩
+  · exact Or.inl hs
+  · exact Or.inr hs
+  · obtain ⟨_, leaf, signer, rest, hm, _, hr, _⟩ := hs
+    have := (hleaf _ hm leaf (signer :: rest) rfl).1
+    rw [this] at hr; cases hr
+  · obtain ⟨_, leaf, rest, more, hc, _, hv, _⟩ := hs
+    have := (hleaf ((leaf :: rest)) (by rw [hc]; exact List.mem_cons_self) leaf rest rfl).2
+    exact absurd hv this
+  · obtain ⟨_, leaf, rest, more, hc, _, hv, _⟩ := hs
+    have := (hleaf ((leaf :: rest)) (by rw [hc]; exact List.mem_cons_self) leaf rest rfl).2
+    exact absurd hv this
+
+/-- **Deny list**: a client certificate whose key is on the deny list establishes no identity. -/
+theorem c06_denied_key (cfg : Cfg) (req : Req) (m : Nat) (info : AuthInfo)
+    (hden : ∀ c ∈ req.chains, ∀ leaf rest, c = leaf :: rest → cfg.deniedKeys.contains leaf.keyId = true)
+    (h : checkAuth cfg req m = .ok info) :
+    cookieValid req info ∨ (basicValid req info.user ∧ info.authType = authTypePassword) := by
+  have hs := (c06_checkAuth_sound cfg req m info h).1
+  rcases hs with hs | hs | ⟨_, hs⟩ | ⟨_, hs⟩ | ⟨_, hs, _⟩
+  · exact Or.inl hs
+  · exact Or.inr hs
+  · obtain ⟨_, leaf, signer, rest, hm, _, _, hd, _⟩ := hs
+    have := hden _ hm leaf (signer :: rest) rfl
+    rw [this] at hd; cases hd
+  · obtain ⟨_, leaf, rest, more, hc, _, _, hd, _⟩ := hs
+    have := hden ((leaf :: rest)) (by rw [hc]; exact List.mem_cons_self) leaf rest rfl
+    rw [this] at hd; cases hd
+  · obtain ⟨_, leaf, rest, more, hc, _, _, hd, _⟩ := hs
+    have := hden ((leaf :: rest)) (by rw [hc]; exact List.mem_cons_self) leaf rest rfl
+    rw [this] at hd; cases hd
+
+namespace Witness
+def leafOut : Cert := { cn := "role1", keyId := 10, ipRestricted := true, ipVerdict := .outside,
+                        notBefore := 0, revoked := false }
+def leafIn : Cert := { cn := "role1", keyId := 10, ipRestricted := true, ipVerdict := .inside,
+                       notBefore := 0, revoked := false }
+def ca : Cert := { cn := "ca", keyId := 1, ipRestricted := false, ipVerdict := .outside,
+                   notBefore := 0, revoked := false }
+def cfg : Cfg := { keymasterKeys := [1], deniedKeys := [], automationUsers := ["role1"],
+                   automationLookupFails := [] }
+def cfgDeny : Cfg := { keymasterKeys := [1], deniedKeys := [10], automationUsers := ["role1"],
+                       automationLookupFails := [] }
+def req (chain : List Cert) : Req :=
+  { method := Method.post, origin := Origin.none, hostPresent := true, tls := true, chains := [chain],
+    cookie := Option.none, basic := Option.none, limiterAllows := true, now := 1000 }
+end Witness
+
+/-- the pinned tree admitted an IP-restricted certificate from outside its netblocks on the
+refresh endpoint (mask = IPCertificate) with a realistic two-element chain, and one whose key
+is on the deny list from inside; the repaired code answers 403 to both -/
+theorem c06_unfixed_counterexample :
+    checkAuthWith asFound Witness.cfg (Witness.req [Witness.leafOut, Witness.ca]) authTypeIPCertificate
+      = .ok { user := "role1", authType := authTypeKeymasterX509, issuedAt := 0, expiresAt := 0 } ∧
+    checkAuth Witness.cfg (Witness.req [Witness.leafOut, Witness.ca]) authTypeIPCertificate = .fail 403 ∧
+    checkAuthWith asFound Witness.cfgDeny (Witness.req [Witness.leafIn]) authTypeIPCertificate
+      = .ok { user := "role1", authType := authTypeIPCertificate, issuedAt := 1000, expiresAt := 0 } ∧
+    checkAuth Witness.cfgDeny (Witness.req [Witness.leafIn]) authTypeIPCertificate = .fail 403 := by
+  decide
+
+/-- non-vacuity: a valid session cookie carrying the U2F bit is admitted on a web-UI endpoint -/
+example :
+    checkAuth { keymasterKeys := [1], deniedKeys := [], automationUsers := [], automationLookupFails := [] }
+      { method := .get, origin := .none, hostPresent := true, tls := false, chains := [],
+        cookie := some { sigOK := true, issOK := true, audOK := true, kind := .auth, nbf := 900, exp := 2000,
+                         iat := 900, sub := "alice", level := 10 },
+        basic := Option.none, limiterAllows := true, now := 1000 } 8
+    = .ok { user := "alice", authType := 10, issuedAt := 900, expiresAt := 2000 } := by decide
+
+end KM.Auth
+
+/-! ### the route table of the current source tree (regenerated) -/
+namespace KM.Routes
+open KM.Auth KM.Site KM.Gen
+
+/-- **Routes**: every route registered on the service multiplexer is in the specification table
+and carries the gate it demands — session-gated routes test the seal first and then call
+`checkAuth` with exactly the expected mask (plus the admin gate where demanded); routes without
+a `checkAuth` are exactly the enumerated own-credential and public-by-design paths. A new or
+re-gated route breaks this theorem. -/
+theorem c06_routes : KM.Gen.routes.all routeOK = true := by decide
+
+/-- every path of the specification is registered (no silently dropped gate) -/
+theorem c06_routes_complete :
+    expected.all (fun e => KM.Gen.routes.any (fun r => r.service && r.path == e.1)) = true := by decide
+
+/-- **No effect without credential**: on a session-gated route, a request that `checkAuth`
+refuses for each of the route's masks is denied — and by `c06_checkAuth_sound` every request it
+does not refuse carries an established identity whose level intersects the mask. -/
+theorem c06_route_gate (cfg : Cfg) (webui : Nat) (r : Route) (req : Req)
+    (h : deniedBy cfg webui r req = false) (hm : r.masks ≠ []) :
+    ∃ m ∈ r.masks, ∃ info, checkAuth cfg req (maskValue webui m) = .ok info ∧
+      Established cfg req info ∧ hasBit info.authType (maskValue webui m) = true := by
+  unfold deniedBy at h
+  simp only [Bool.and_eq_false_iff, Bool.not_eq_false', List.isEmpty_iff] at h
+  rcases h with h | h
+  · exact absurd h hm
+  · rw [List.all_eq_false] at h
+    obtain ⟨m, hmm, hv⟩ := h
+    refine ⟨m, hmm, ?_⟩
+    unfold refuses at hv
+    split at hv
+    · rename_i info hok
+      exact ⟨info, hok, c06_checkAuth_sound cfg req _ info hok⟩
+    · exact absurd rfl hv
+
+end KM.Routes
